@@ -11,7 +11,8 @@
               built inside the package.
    Codes: 0 ok; 1 the observation violates the property's specification; 2 it satisfies the
    specification but differs from the model; 3 the model's formalisation of Go's promotion
-   rule (go_ms) disagrees with go/types on this tree (machinery fault, never a finding);
+   rule (go_ms) or of the method set of an interface (iface_methods, a set union) disagrees
+   with go/types on this tree (machinery fault, never a finding);
    cases outside the property's quantifier (in_domain = false) never gate.                  *)
 From Coq Require Import List Bool String NArith Arith.
 From GT Require Import Base.Verdict IFaceModel.
@@ -28,12 +29,69 @@ Record c19_case := C19 {
   cc_locals : list string;
   cc_priv : bool;
   cc_emb : bool;
-  cc_tree : tree;
+  cc_src : stree;                       (* the embedding tree as declared (interfaces unflattened) *)
   cc_obs : list obs_meth;
   cc_obs_imports : list (string * string * string);
   cc_goms : list string;
+  cc_gt_ifaces : list (list meth);      (* go/types' Method(i) list of every interface node, pre-order *)
   cc_compiled : bool
 }.
+
+(* the tree namedTypeToInterface walks: interfaces flattened by the model's own union *)
+Definition cc_tree (c : c19_case) : tree := flatten (cc_src c).
+
+(* ---- go/types' method list of an interface against the model's union (iface_methods) ---- *)
+Definition pinfo_eqb (a b : pinfo) : bool :=
+  String.eqb (pi_name a) (pi_name b) && Bool.eqb (pi_ctx a) (pi_ctx b) && Bool.eqb (pi_err a) (pi_err b).
+Definition pkg_eqb (a b : option (string * string)) : bool :=
+  match a, b with
+  | None, None => true
+  | Some (p, n), Some (p', n') => String.eqb p p' && String.eqb n n'
+  | _, _ => false
+  end.
+Fixpoint ty_eqb (a b : ty) {struct a} : bool :=
+  match a, b with
+  | TBasic s, TBasic s' => String.eqb s s'
+  | TNamed p n l, TNamed p' n' l' =>
+      pkg_eqb p p' && String.eqb n n' &&
+      (fix go (l l' : list ty) {struct l} : bool :=
+         match l, l' with
+         | [], [] => true
+         | x :: r, x' :: r' => ty_eqb x x' && go r r'
+         | _, _ => false
+         end) l l'
+  | TPtr x, TPtr x' | TSlice x, TSlice x' => ty_eqb x x'
+  | TArray n x, TArray n' x' => N.eqb n n' && ty_eqb x x'
+  | TMap k v, TMap k' v' => ty_eqb k k' && ty_eqb v v'
+  | TFunc ps v rs, TFunc ps' v' rs' =>
+      let go := fix go (l l' : list (pinfo * ty)) {struct l} : bool :=
+         match l, l' with
+         | [], [] => true
+         | (p, x) :: r, (p', x') :: r' => pinfo_eqb p p' && ty_eqb x x' && go r r'
+         | _, _ => false
+         end in
+      go ps ps' && Bool.eqb v v' && go rs rs'
+  | _, _ => false
+  end.
+Definition meth_eqb (a b : meth) : bool :=
+  String.eqb (m_name a) (m_name b) && Bool.eqb (m_field a) (m_field b) &&
+  ty_eqb (TFunc (m_ps a) (m_variadic a) (m_rs a)) (TFunc (m_ps b) (m_variadic b) (m_rs b)).
+
+Fixpoint src_ifaces (s : stree) : list itree :=
+  match s with
+  | SStruct _ _ embs => flat_map src_ifaces embs
+  | SIface i => [i]
+  end.
+
+Definition same_meths (a b : list meth) : bool :=
+  Nat.eqb (List.length a) (List.length b) &&
+  forallb (fun m => existsb (meth_eqb m) b) a && forallb (fun m => existsb (meth_eqb m) a) b.
+
+Definition ifaces_ok (c : c19_case) : bool :=
+  let is := src_ifaces (cc_src c) in
+  Nat.eqb (List.length is) (List.length (cc_gt_ifaces c)) &&
+  forallb (fun p : itree * list meth => same_meths (iface_methods (fst p)) (snd p))
+          (combine is (cc_gt_ifaces c)).
 
 Definition list_eqb (a b : list string) : bool :=
   Nat.eqb (List.length a) (List.length b) &&
@@ -67,18 +125,27 @@ Fixpoint tree_in_domain (t : tree) : bool :=
                      forallb tree_in_domain embs
   end.
 
-(* the aliases of the active imports are pairwise distinct and none is a package-level name *)
-Definition aliases_ok (locals : list string) (act : table) : bool :=
-  nodupb (map i_alias act) && forallb (fun i => negb (mem (i_alias i) locals)) act.
+(* the aliases of the OBSERVED active imports are pairwise distinct and none is a package-level
+   name (part of the specification: "every import it needs is among the active imports under
+   the alias used" — two imports binding one name do not compile) *)
+Definition obs_aliases_ok (c : c19_case) : bool :=
+  let als := map (fun o : string * string * string => fst (fst o)) (cc_obs_imports c) in
+  nodupb als && forallb (fun a => negb (mem a (cc_locals c))) als.
+
+(* the environment of the handler: current code (on-demand imports get an unused name) *)
+Definition c_env (c : c19_case) : env := Env (cc_self c) (cc_pkg_imports c) (cc_locals c) true.
 
 Definition model_of (c : c19_case) : list rmeth * table :=
-  find_interface (Env (cc_self c) (cc_pkg_imports c)) (cc_specs c) (cc_priv c) (cc_emb c)
+  find_interface (c_env c) (cc_specs c) (cc_priv c) (cc_emb c)
                  (cc_tree c).
 
-Definition in_domain_with (mo : list rmeth * table) (c : c19_case) : bool :=
+(* the domain is a predicate on the INPUT only: embedding at most two levels deep, types and
+   parameter names inside the listed constructors, and the file the handler is built from
+   compiles (its import specs bind distinct names, none a package-level name) *)
+Definition in_domain (c : c19_case) : bool :=
   Nat.leb (height (cc_tree c)) 2 && tree_in_domain (cc_tree c) &&
-  aliases_ok (cc_locals c) (snd mo).
-Definition in_domain (c : c19_case) : bool := in_domain_with (model_of c) c.
+  specs_okb (c_env c) (cc_specs c).
+Definition in_domain_with (mo : list rmeth * table) (c : c19_case) : bool := in_domain c.
 
 (* ---- specification side ---- *)
 Definition names_ok (c : c19_case) (o : obs_meth) : bool :=
@@ -101,7 +168,7 @@ Definition methods_ok (c : c19_case) : bool :=
    that name (the unique shallowest one) — not of some other method of the same name further
    down; rendered under the import table as FindInterface leaves it *)
 Definition final_table (c : c19_case) : table :=
-  let e := Env (cc_self c) (cc_pkg_imports c) in
+  let e := c_env c in
   snd (to_iface e (cc_priv c) (cc_emb c) (calc_imports e (cc_specs c)) (cc_tree c)).
 
 Definition sig_ok (c : c19_case) (st : table) (o : obs_meth) : bool :=
@@ -109,7 +176,7 @@ Definition sig_ok (c : c19_case) (st : table) (o : obs_meth) : bool :=
   | None => false
   | Some m0 =>
       String.eqb (om_sig o)
-                 (signature (fst (render_method (Env (cc_self c) (cc_pkg_imports c)) st m0)))
+                 (signature (fst (render_method (c_env c) st m0)))
   end.
 
 Definition sigs_ok (c : c19_case) : bool :=
@@ -120,7 +187,7 @@ Definition sigs_ok (c : c19_case) : bool :=
    signature text that differs from the rendering of Go's declaration while the package still
    compiles denotes the same type and is a difference from the model (verdict 2, see model_eq) *)
 Definition spec_ok (c : c19_case) : bool :=
-  methods_ok c && forallb (names_ok c) (cc_obs c) && cc_compiled c.
+  methods_ok c && forallb (names_ok c) (cc_obs c) && obs_aliases_ok c && cc_compiled c.
 
 (* ---- model side ---- *)
 Definition meth_eq (o : obs_meth) (m : rmeth) : bool :=
@@ -151,7 +218,7 @@ Definition goms_ok (c : c19_case) : bool :=
           (all_names (cc_tree c) ++ cc_goms c)%list.
 
 Definition c19_judge (c : c19_case) : nat :=
-  if negb (goms_ok c) then 3
+  if negb (goms_ok c && ifaces_ok c) then 3
   else if negb (in_domain c) then 0
   else verdict (spec_ok c) (model_eq c && sigs_ok c).
 
@@ -159,12 +226,13 @@ Definition c19_judge (c : c19_case) : nat :=
 Definition c19_judge_info (c : c19_case) : nat :=
   if in_domain c then 0 else if model_eq c then 0 else 2.
 
-(* both in one evaluation: codes 1-3 gate, 12 = outside the quantifier and different from the model *)
+(* both in one evaluation: codes 1-3 gate; outside the quantifier (counted, reported in the
+   evidence, never gating): 10 = equal to the model, 12 = different from the model *)
 Definition c19_judge_all (c : c19_case) : nat :=
   let mo := model_of c in
-  if negb (goms_ok c) then 3
+  if negb (goms_ok c && ifaces_ok c) then 3
   else if in_domain_with mo c then verdict (spec_ok c) (model_eq_with mo c && sigs_ok c)
-  else if model_eq_with mo c then 0 else 12.
+  else if model_eq_with mo c then 10 else 12.
 
 Definition c19_nontrivial (c : c19_case) : bool :=
   in_domain c &&
